@@ -279,6 +279,8 @@ def run(ctx):
   # "the key is marked weak": Check bodies set entry.result = True (above); SetTestResult turns that into test_info.weak
   from . import c16
   ctx.borrow(c16.rule_mono, "R-C01-WEAK", lambda r: r.construct == "weak-flag")
+  # every recorded value divides n (or n - 1): a record is looked up by exactly its own name and updated in place (N_FACTORS and N-1_FACTORS never mix)
+  ctx.borrow(c16.rule_mono, "R-C01-MERGE", lambda r: r.construct == "attach-info" or (r.construct == "lookup-by-name" and r.where.endswith("GetAttachedInfo")))
   ctx.expect("R-C01-SINK", 12, "12 AttachFactors sites")
   ctx.expect("R-C01-CERT", 14, "11 factor-producing returns + inline sites + BatchGCD")
   ctx.expect("R-C01-PROPER", 5, "four gcd-based helpers + CheckGCD")
@@ -384,6 +386,18 @@ def rule_merge(ctx):
       saw_truthy = True
       if not has_old:
         probs.append("existing factors are dropped when new ones are attached (overwrite instead of union)")
+      else:
+        # the collection that is serialised must be the UNION of the two sets (a.union(b), a | b), not a difference / intersection that merely mentions both
+        is_union = False
+        for x in atoms:
+          inside = {y for arg in x.args if isinstance(arg, Poly) for y in arg.all_atoms()}
+          both = fac.as_atom() in inside and old.as_atom() in inside
+          if x.kind in ("pm", "mcall") and len(x.args) >= 3 and repr(x.args[1]) == "lit('union')" and both:
+            is_union = True
+          if x.kind == "bor" and both:
+            is_union = True
+        if not is_union:
+          probs.append("the stored set is not the union of the new and the recorded factors (recorded factors can disappear)")
     if "lit(\"'x'\")" not in repr(val) and "'x'" not in repr(val):
       probs.append("factors are not serialised as lower-case hex (reader parses base 16)")
   if calls and not saw_truthy:
